@@ -212,13 +212,16 @@ def lookup_result(u, fn='_lookup'):
             continue
         none = fact(ps, '(%s == Py_None)' % R)
         dflt = fact(ps, 'default_')
-        if none is None:
-            probs.append('result not compared with None')
+        # every completion of the tests the path did not need must agree
+        wants = set()
+        for n_ in ([none] if none is not None else [True, False]):
+            for d_ in ([dflt] if dflt is not None else [True, False]):
+                wants.add('default_' if (n_ and d_) else R)
+        if len(wants) != 1:
+            probs.append('result not compared with None' if none is None
+                         else 'None result: default not consulted')
             continue
-        if none and dflt is None:
-            probs.append('None result: default not consulted')
-            continue
-        want = 'default_' if (none and dflt) else R
+        want = wants.pop()
         kinds.add('default' if want == 'default_' else 'value')
         if r != want:
             probs.append('%s: returns `%s`' % (
